@@ -39,7 +39,7 @@ func (SilentLogger) Errorf(format string, v ...any) {
 		_ = fmt.Sprintf(format, v...)
 	}
 }
-func (SilentLogger) Panic(v ...any)                   { panic(fmt.Sprint(v...)) }
-func (SilentLogger) Panicf(format string, v ...any)   { panic(fmt.Sprintf(format, v...)) }
-func (SilentLogger) Fatal(v ...any)                   { panic("FATAL: " + fmt.Sprint(v...)) }
-func (SilentLogger) Fatalf(format string, v ...any)   { panic("FATAL: " + fmt.Sprintf(format, v...)) }
+func (SilentLogger) Panic(v ...any)                 { panic(fmt.Sprint(v...)) }
+func (SilentLogger) Panicf(format string, v ...any) { panic(fmt.Sprintf(format, v...)) }
+func (SilentLogger) Fatal(v ...any)                 { panic("FATAL: " + fmt.Sprint(v...)) }
+func (SilentLogger) Fatalf(format string, v ...any) { panic("FATAL: " + fmt.Sprintf(format, v...)) }
